@@ -114,6 +114,8 @@ Section WithErf.
   Lemma K_ga_call_val d q : ga_call_val RN d q = exp (- d * d / q). Proof. reflexivity. Qed.
   Lemma K_ga_move_start ts d : ga_move_start RN ts d = ts + d. Proof. reflexivity. Qed.
   Lemma K_ga_move_stop te d : ga_move_stop RN te d = te + d. Proof. reflexivity. Qed.
+  Lemma K_ga_int_clip1 t ts te : ga_int_clip1 RN t ts te = Rmin (Rmax t ts) te. Proof. reflexivity. Qed.
+  Lemma K_ga_int_clip2 t ts te : ga_int_clip2 RN t ts te = Rmin (Rmax t ts) te. Proof. reflexivity. Qed.
   Lemma K_ga_int_t0 ts te : ga_int_t0 RN ts te = (ts + te) / 2.
   Proof. unfold ga_int_t0. num_R. lra. Qed.
   Lemma K_ga_int_c1 sg : ga_int_c1 RN sg = sqrt (PI / 2) * sg.
@@ -162,11 +164,12 @@ Section WithErf.
 
   Lemma gauss_integral_spec ts te sg t1 t2 :
     gauss_integral RN ts te sg t1 t2 =
-      sqrt (PI / 2) * sg * erfR ((t2 - (ts + te) / 2) / (sqrt 2 * sg))
-      - sqrt (PI / 2) * sg * erfR ((t1 - (ts + te) / 2) / (sqrt 2 * sg)).
+      sqrt (PI / 2) * sg * erfR ((Rmin (Rmax t2 ts) te - (ts + te) / 2) / (sqrt 2 * sg))
+      - sqrt (PI / 2) * sg * erfR ((Rmin (Rmax t1 ts) te - (ts + te) / 2) / (sqrt 2 * sg)).
   Proof.
-    unfold gauss_integral.
-    rewrite K_ga_int_val, K_ga_int_i1, K_ga_int_i2, K_ga_int_c1, K_ga_int_c2, K_ga_int_t0. reflexivity.
+    unfold gauss_integral. cbv zeta.
+    rewrite K_ga_int_val, K_ga_int_i1, K_ga_int_i2, K_ga_int_c1, K_ga_int_c2, K_ga_int_t0,
+      K_ga_int_clip1, K_ga_int_clip2. reflexivity.
   Qed.
 
   (* ========================================================== power-law integral *)
